@@ -325,6 +325,30 @@ def run(check):
       r_rm.violate('FastHashRing.%s' % mname, m, None, 'FastHashRing.%s does not rebuild sorted_nodes after changing the node set'
                    % mname, construct='self._update_nodes()')
 
+  un = fr.methods.get('_update_nodes')
+  if un is None:
+    r_rm.cannot_decide('FastHashRing._update_nodes not found')
+  else:
+    asg = [n for n in walk_no_nested(un.node, include_self=False) if isinstance(n, ast.Assign) and
+           any(dotted(t) == 'self.sorted_nodes' for t in n.targets)]
+    okf = False
+    why = 'self.sorted_nodes is not assigned'
+    for a in asg:
+      v = a.value
+      if isinstance(v, ast.Call) and dotted(v.func) == 'sorted' and v.args and isinstance(v.args[0], (ast.ListComp, ast.GeneratorExp)) and \
+         len(v.args[0].generators) == 1 and dotted(v.args[0].generators[0].iter) == 'self.nodes' and not v.args[0].generators[0].ifs \
+         and isinstance(v.args[0].elt, ast.Tuple) and isinstance(v.args[0].elt.elts[-1], ast.Name) and \
+         v.args[0].elt.elts[-1].id == getattr(v.args[0].generators[0].target, 'id', None):
+        okf = True
+      else:
+        why = '`%s` is not sorted(<one (hash, node) pair per element of self.nodes>)' % short(v, 70)
+    if okf:
+      r_rm.ok('FastHashRing.sorted_nodes holds exactly one entry per configured node', un.loc(asg[0]))
+    else:
+      r_rm.violate('FastHashRing.sorted_nodes can lose nodes', un, asg[0] if asg else None, 'FastHashRing._update_nodes: %s - when two nodes '
+                   'hash alike (or are filtered) the walk in get_nodes, which counts len(self.nodes) steps, wraps early: a node is '
+                   'returned twice and another never' % why, construct='self.sorted_nodes = sorted((hash, n) for n in self.nodes)')
+
   # ------------------------------------------------------------------ purity
   r_pu = check.rule('R-C05-pure', 4, 'same key and membership -> same ordered list')
   fns = [f for f in (gn, gd, repo.func('carbon.hashing', 'carbonHash'), ring.methods.get('compute_ring_position'),
